@@ -2091,6 +2091,9 @@ class PyCdlib:
                                                 self.udf_file_set.root_dir_icb.log_block_num,
                                                 None)
 
+        # Empty files have no data extent, but UDF names that point at the same
+        # File Entry still are one file.
+        empty_fe_extent_to_inode = {}  # type: Dict[int, inode.Inode]
         udf_file_entries = collections.deque([self.udf_root])
         while udf_file_entries:
             udf_file_entry = udf_file_entries.popleft()
@@ -2155,6 +2158,8 @@ class PyCdlib:
                         else:
                             if abs_file_data_extent != 0 and abs_file_data_extent in extent_to_inode:
                                 ino = extent_to_inode[abs_file_data_extent]
+                            elif abs_file_data_extent == 0 and abs_file_entry_extent in empty_fe_extent_to_inode:
+                                ino = empty_fe_extent_to_inode[abs_file_entry_extent]
                             else:
                                 ino = inode.Inode()
                                 ino.parse(abs_file_data_extent,
@@ -2162,6 +2167,8 @@ class PyCdlib:
                                           self._cdfp, self.logical_block_size)
                                 if abs_file_data_extent != 0:
                                     extent_to_inode[abs_file_data_extent] = ino
+                                else:
+                                    empty_fe_extent_to_inode[abs_file_entry_extent] = ino
                                 self.inodes.append(ino)
 
                             ino.linked_records.append((next_entry, False))
